@@ -97,7 +97,7 @@ func H_C08_tree(v *V) {
 		argv = append(argv, slots[i+1]...)
 	}
 	_, err := p.ParseArgs(argv)
-	v.ObserveStr("err", vErrString(err))
+	vObsErr(v, err)
 	t, typed := vErrType(err)
 	if early >= 0 {
 		v.Reach("early")
@@ -170,7 +170,7 @@ func H_C08_word(v *V) {
 		argv = []string{"add", "-y", W}
 	}
 	rest, err := p.ParseArgs(argv)
-	v.ObserveStr("err", vErrString(err))
+	vObsErr(v, err)
 	t, typed := vErrType(err)
 	if !optional {
 		v.Reach("required")
